@@ -456,9 +456,11 @@ def deterministic(arch, tier, part=0, nparts=1, stride=1, block=1):
     else:
         cblock = block
     i = 0
+    nscript = len(curated_rows(arch))
     for b in curated(arch):
         if (i // cblock) % nparts == part:
-            yield "curated", i, b
+            # the extra immediate-boundary vectors come after the script's own ones
+            yield ("curated" if i < nscript else "boundary"), i, b
         i += 1
     j = 0
     for b in enumeration(arch, tier):
